@@ -1161,3 +1161,122 @@ theorem attach_core (par : Lvl) (parent : Scope) (n : OpNode) (o : Op) (sc : ShS
     · rw [ha] at hkind; simp [k15, k17] at hkind
 
 end Occa.Expr
+
+namespace Occa.Expr
+open Occa.Gen
+
+theorem shStep_close_eq (s : Sh) (o : Op) (next : Option Tok) (sc : ShScope) (rest : List ShScope)
+    (h1 : has o.ty T.pairStart = false) (h2 : has o.ty T.pairEnd = true) (hs : s.stack = sc :: rest) :
+    shStep s (.op o) next =
+      if o.ty == sc.closerTy && s.pendingQ == 0 && (!s.needOperand || s.content == .empty) then
+        if sc.inE && has o.ty T.parentheses && s.content == .oneType then
+          some { needOperand := true, pendingQ := sc.savedQ, content := .other, stack := rest,
+                 prev := some (.op o), prevCastEnd := true }
+        else
+          some { needOperand := false, pendingQ := sc.savedQ, content := .other, stack := rest,
+                 prev := some (.op o), prevCastEnd := false }
+      else none := by
+  simp only [shStep, h1, h2, hs, Bool.false_eq_true, if_false, if_true]
+
+/-- a closing `)`, `]` or `}` -/
+theorem step_close (s s' : Sh) (σ σ' : St) (o : Op) (next : Option Tok) (consumed : List Tok)
+    (cur : Lvl) (stk : List Lvl) (hinv : Inv s σ consumed cur stk) (h2 : has o.ty T.pairEnd = true)
+    (hsh : shStep s (.op o) next = some s') (hst : step σ (.op o) next = .ok σ') :
+    ∃ cur' stk', Inv s' σ' (consumed ++ [.op o]) cur' stk' := by
+  have h1 : has o.ty T.pairStart = false := (pairEnd_facts o h2).1
+  cases hstack : s.stack with
+  | nil => simp [shStep, h1, h2, hstack] at hsh
+  | cons sc rest =>
+    have hl := hinv.levels
+    rw [hstack] at hl
+    obtain ⟨par, stk', psc, pstack, n, hstk, hσstack, hrep, hgood, hbase, hpair, hlev⟩ := hl.inv_push
+    subst hstk
+    obtain ⟨hparrep, hpargood⟩ := hlev.cur_rep
+    rw [shStep_close_eq s o next sc rest h1 h2 hstack] at hsh
+    by_cases hcond : (o.ty == sc.closerTy && s.pendingQ == 0 && (!s.needOperand || s.content == .empty)) = true
+    · simp only [hcond, if_true] at hsh
+      simp only [Bool.and_eq_true, beq_iff_eq, Bool.or_eq_true, Bool.not_eq_true'] at hcond
+      obtain ⟨⟨hc1, hc2⟩, hc3⟩ := hcond
+      have hfs : cur.fs = cur.pre ++ baseFrames (some n) := by rw [Lvl.fs, hbase]
+      have hopn : has n.op.ty T.pairStart = true := hgood.frames.ok (Frame.opn n) (by rw [hfs]; simp [baseFrames])
+      have hm : (o.ty == shl1 n.op.ty) = true := by rw [hc1, hpair.closer]; simp
+      obtain ⟨v', hclose, hvtoks, hvcl, hvty⟩ :=
+        close_core s σ consumed cur par stk' hinv o n psc hbase hparrep hpargood h2 hm hc2
+          (by rcases hc3 with h | h
+              · exact Or.inl h
+              · exact Or.inr (by simpa using h))
+      obtain ⟨out', ops', par', hatt, hrep', hgood', hbase', htoks', hq', hshape⟩ :=
+        attach_core par psc n o sc σ.cur.before v' (s.content == .oneType) hparrep hpargood hpair hopn hm hvcl
+          (by
+            cases hc : s.content <;> rw [hc] at hvty
+            · have : isTypeNode v' = false := by
+                cases h : isTypeNode v'
+                · rfl
+                · exact absurd (hvty.mp h) (by simp)
+              rw [this]; rfl
+            · rw [hvty.mpr rfl]; rfl
+            · have : isTypeNode v' = false := by
+                cases h : isTypeNode v'
+                · rfl
+                · exact absurd (hvty.mp h) (by simp)
+              rw [this]; rfl)
+      rw [step_close_eq σ o next psc pstack h1 h2 hσstack, hclose] at hst
+      simp only [hatt, Except.ok.injEq] at hst
+      have htokall : consumed ++ [Tok.op o] = allToks par' stk' := by
+        rw [hinv.toks, allToks_pop, allToks, allToks, htoks']
+        show _ ++ scopeToks cur.fs cur.top ++ _ = _
+        rw [hfs, scopeToks_base, hvtoks]; simp [allToks, List.append_assoc]
+      refine ⟨par', stk', ?_⟩
+      by_cases hcast : (sc.inE && has o.ty T.parentheses && (s.content == .oneType)) = true
+      · -- a cast
+        simp only [hcast, if_true, Option.some.injEq] at hsh hshape
+        obtain ⟨hptop, m, hpfs, hmop⟩ := hshape
+        subst hsh; subst hst
+        constructor
+        · exact hlev.replaceCur hrep' hgood' hbase' rfl
+        · exact htokall
+        · rfl
+        · show (sc.inE && has o.ty T.parentheses && (s.content == .oneType)) = true
+          exact hcast
+        · show PrevE _ _
+          refine ⟨hptop, fun f hf => by rw [hpfs] at hf; simp at hf; subst hf; rfl, ?_⟩
+          simp only [if_true]
+          exact ⟨m, par.fs, hpfs, hmop⟩
+        · show sc.savedQ = questCount par'.fs
+          rw [hq', hpair.savedQ]
+        · show ContentOk _ _
+          unfold ContentOk
+          simp only
+          intro ⟨hp, _⟩
+          have : par'.fs = par'.pre ++ baseFrames par'.base := rfl
+          rw [hp, hpfs] at this
+          cases hb : par'.base with
+          | none => rw [hb] at this; simp [baseFrames] at this
+          | some b =>
+            rw [hb] at this; simp [baseFrames] at this
+      · simp only [hcast, Bool.false_eq_true, if_false, Option.some.injEq] at hsh hshape
+        obtain ⟨hptop, hpfs, hnotty⟩ := hshape
+        have hcast' : (sc.inE && has o.ty T.parentheses && (s.content == .oneType)) = false := by simpa using hcast
+        subst hsh; subst hst
+        constructor
+        · exact hlev.replaceCur hrep' hgood' hbase' rfl
+        · exact htokall
+        · rfl
+        · show (sc.inE && has o.ty T.parentheses && (s.content == .oneType)) = false
+          exact hcast'
+        · show PrevO _ _
+          have hhead : ∀ f, par'.fs.head? = some f → f.isPost = false := by
+            rw [hpfs]; exact hpair.parTop.2
+          refine ⟨rfl, Or.inl ⟨hptop, hhead⟩, Or.inl ⟨hptop, Or.inr ⟨o, rfl, h2⟩⟩⟩
+        · show sc.savedQ = questCount par'.fs
+          rw [hq', hpair.savedQ]
+        · show ContentOk _ _
+          unfold ContentOk
+          simp only
+          intro ⟨_, hh⟩
+          rcases hh with hh | ⟨m, k, hh⟩
+          · rw [hh] at hptop; simp at hptop
+          · exact hnotty m k hh
+    · simp [hcond] at hsh
+
+end Occa.Expr
